@@ -17,7 +17,7 @@ MANIFEST = dict(
          "`self.changes = []` reset, the for-else clear, ack-before-parse, counter kind), so removing the reset or changing a slice changes the Lean term. "
          "Tie: translator facts + differential correspondence of the real long-lived handler objects (async via the real consume task on the virtual loop; "
          "threaded via stepped dispatch on a real GeckoSpa) + a sequential reference block kept by the harness (search)."
-         ' Since session 3: partial updates carry overlapping neighbour records (p, p+-1, p). Session 4: histories contain partial updates that arrive while a request holds the protocol lock (busy windows): application stays in arrival order and every update is acknowledged. The acknowledging handler and the apply callback of the awaitable client have no suspension point (partial_update_never_suspends over the regenerated skeletons; no_suspension_no_aw: every trace is one atomic block). Histories with a byte-identical report repeated after a refresh overwrote its positions; partial_update_path_state_inventory. Real refresh exchanges on the wire with a partial update queued just ahead of the answer, at several phases of the two pollers. Session 5: connected clients (the items of a pack\'s tables built over the block and watched, as a facade does) with partial updates and refreshes that put unusual stored values under them (an enumeration\'s byte at / around its label count, 255, first record of several); an exception of the implementation during a refresh is an observation with a failing input.',
+         ' Since session 3: partial updates carry overlapping neighbour records (p, p+-1, p). Session 4: histories contain partial updates that arrive while a request holds the protocol lock (busy windows): application stays in arrival order and every update is acknowledged. The acknowledging handler and the apply callback of the awaitable client have no suspension point (partial_update_never_suspends over the regenerated skeletons; no_suspension_no_aw: every trace is one atomic block). Histories with a byte-identical report repeated after a refresh overwrote its positions; partial_update_path_state_inventory. Real refresh exchanges on the wire with a partial update queued just ahead of the answer, at several phases of the two pollers. Session 5: connected clients (the items of a pack\'s tables built over the block and watched, as a facade does) with partial updates and refreshes that put unusual stored values under them (an enumeration\'s byte at / around its label count, 255, first record of several); an exception of the implementation during a refresh is an observation with a failing input. The threaded rig\'s partial updates arrive as framed datagrams in a fake OS socket that truncates to the reader\'s buffer and are read by the engine\'s own receive step; maximal messages (255 records) in the corpus; largest_partial_update_fits_the_receive_buffer over the regenerated recvBufferSize.',
     note="Trusted: Lean kernel, translator, correspondence harness. asyncio: no other task runs between async_handle and async_handled (neither suspends). "
          "Malformed STATP bodies (short records) and observers that raise inside the threaded callback are outside the property's quantifier and the model. "
          "A STATQ arriving at the client is outside the quantifier too (the async handler would then re-apply its last change list).",
@@ -250,7 +250,14 @@ class SyncRig:
         self.handler = [h for h in self.spa._receive_handlers if isinstance(h, GeckoPartialStatusBlockProtocolHandler)][0]
 
     def statp(self, body):
-        self.spa.dispatch_recevied_data(b"STATP" + body, SENDER)
+        # as it arrives: one framed datagram in the OS socket's buffer (a fake that truncates to the reader's buffer size, as UDP
+        # does), read by the engine's own receive step and unwrapped by the client's own packet handler
+        import rig as _rig
+        from props.c01 import BufSock
+        if not isinstance(self.spa._socket, BufSock):
+            self.spa._socket = BufSock()          # the environment (the OS socket), not client state
+        self.spa._socket.buffer.append((_rig.frame(_Desc.identifier, b"IOSclient", b"STATP" + body), SENDER[:2]))
+        self.spa._process_received_data()
 
     def refresh(self, off, seg):
         self.spa.struct.replace_status_block_segment(off, seg)
@@ -408,6 +415,11 @@ def run(ctx):
         [("statp", [(100, b"\x55\x66")]), ("refresh", 98, b"\xa1\xa2\xa3\xa4\xa5\xa6"), ("statp", [])],
         [("statp", [(100, b"\x55\x66"), (300, b"\x01\x02")]), ("refresh", 0, bytes(range(256)) * 4), ("statp", []), ("statp", [(500, b"\x09\x09")])],
         [("statp", [(40, b"\x11")]), ("refresh", 40, b"\x22\x33"), ("statp", []), ("statp", [(41, b"\x44")])],
+        # the LARGEST messages the format allows (the count is one byte: 255 records, a datagram of well over 1000 bytes) and some just
+        # below, between ordinary ones: they arrive through the threaded client's socket buffer like any other
+        [("statp", [(7, b"\x01\x02")]), ("statp", [((4 * i) % 1020, bytes([i, 255 - i])) for i in range(255)]), ("statp", [(9, b"\x03\x04")]),
+         ("statp", [((4 * i + 2) % 1020, bytes([255 - i, i])) for i in range(254)]), ("refresh", 0, bytes(range(200))),
+         ("statp", [((4 * i + 1) % 1020, bytes([i, i])) for i in range(230)]), ("statp", [((4 * i) % 1020, bytes([i ^ 0x55, i])) for i in range(200)])],
     ]
     hists = corpus + [gen_history(rng, rng.randrange(2, 12 if ctx.quick else 40)) for _ in range(nh)]
     # connected clients: the items of a pack's tables are built over the block and watched (as a facade does)
